@@ -89,8 +89,19 @@ func runLifeSession(sess lifeSession, maxConn int, occupied string, elsewhere st
 			cc.ConnectTimeout = 2 * time.Second
 			var conn *client.CqlClientConnection
 			var err error
-			if !guard("Connect", func() { conn, err = cc.Connect(ctx) }) {
-				return
+			for try := 0; try < 8; try++ {
+				if !guard("Connect", func() { conn, err = cc.Connect(ctx) }) {
+					return
+				}
+				clash := false
+				for _, other := range clients { // (see accept-stranger: the registry is keyed by the client's address)
+					clash = clash || (err == nil && other.LocalAddr().String() == conn.LocalAddr().String())
+				}
+				if !clash {
+					break
+				}
+				_ = conn.Close()
+				time.Sleep(20 * time.Millisecond)
 			}
 			if err != nil {
 				bad("connect", fmt.Sprintf("step %d: client %s could not connect: %v", si, st.C, err))
@@ -134,7 +145,24 @@ func runLifeSession(sess lifeSession, maxConn int, occupied string, elsewhere st
 		case "accept-stranger":
 			// a client connection made to another listener: the server never sees it
 			cc := client.NewCqlClient(elsewhere, nil)
-			conn, err := cc.Connect(ctx)
+			var conn *client.CqlClientConnection
+			var err error
+			for try := 0; try < 8; try++ {
+				if conn, err = cc.Connect(ctx); err != nil {
+					break
+				}
+				// the kernel may give this connection (to another listener) the local port of one of the server's clients, and
+				// the registry is keyed by the client's address: that would not be a stranger
+				clash := false
+				for _, other := range clients {
+					clash = clash || other.LocalAddr().String() == conn.LocalAddr().String()
+				}
+				if !clash {
+					break
+				}
+				_ = conn.Close()
+				conn, err = nil, fmt.Errorf("local port clash")
+			}
 			if err != nil {
 				bad("harness", fmt.Sprintf("cannot connect to the harness's own listener: %v", err))
 				break
